@@ -156,7 +156,7 @@ theorem nextRow_ok (g : CG) (hw : WF g) (inp : List (List Nat)) (rows : List (Li
     (hrows : RowsOK g inp rows) (hpos : 0 < rows.length) (hlx : inp.getD (rows.length - 1) [] = lx)
     (hlen : rows.length - 1 < inp.length) :
     ∀ y ∈ nextRow g rows lx, ItemOK g inp rows.length y := by
-  unfold nextRow
+  unfold nextRow scanned
   simp only
   apply closure_ok g hw inp rows rows.length hrows rfl
   refine foldl_addUnique_ok (ItemOK g inp rows.length) _ _ (by intro y hy; cases hy) ?_
@@ -226,6 +226,16 @@ theorem runRows_ok (g : CG) (hw : WF g) (lexs : List (List Nat)) :
     subst this
     simpa using initRow_ok g hw lexs it (by simpa using hit)
   exact key [] lexs [initRow g] rfl h0 rfl
+
+theorem runRows_len (g : CG) (lexs : List (List Nat)) : (runRows g lexs).length = lexs.length + 1 := by
+  unfold runRows
+  have key : ∀ (rest : List (List Nat)) (rows : List (List Item)),
+      (rest.foldl (fun rows lx => rows ++ [nextRow g rows lx]) rows).length = rows.length + rest.length := by
+    intro rest
+    induction rest with
+    | nil => intro rows; simp
+    | cons lx rest ih => intro rows; simp only [List.foldl_cons]; rw [ih]; simp; omega
+  rw [key]; simp; omega
 
 /-- **no over-acceptance at the parser level.**  If the model's last row is accepting, the start
 symbol derives the whole sequence of scanned lexeme sets. -/
